@@ -14,7 +14,10 @@ VERIF = os.path.dirname(os.path.dirname(os.path.abspath(__file__)))
 CHECKS_FOR = {'C01-B': ['C01', 'C03'], 'C02-B': ['C02', 'C03'],
               'C03-B': ['C03', 'C18'], 'C04-A': ['C04', 'C03'],
               'C01-C': ['C01', 'C03'], 'C02-C': ['C02', 'C03'],
-              'C08-C': ['C08', 'C09'], 'C11-D': ['C11', 'C03']}
+              'C08-C': ['C08', 'C09'], 'C11-D': ['C11', 'C03'],
+              'C02-E': ['C02', 'C01'], 'C08-F': ['C08', 'C07'],
+              'C10-F': ['C10', 'C08'], 'C15-E': ['C15', 'C07'],
+              'C03-E': ['C03', 'C01'], 'C14-E': ['C14', 'C01']}
 
 
 def one(sid, suite):
